@@ -330,6 +330,9 @@ func TestC20DBI(t *testing.T) {
 // ---- mirror cycle on a real MDB_DUPSORT DBI -----------------------------------
 
 type C20Cycle struct {
+	// SecondDBI: the environment holds a second duplicate-keys DBI ("aaa", mirrored before "dup") with two
+	// static pairs whose shadow keys sort after everything in "dup": every DBI is mapped on its own
+	SecondDBI     bool      `json:"second_dbi,omitempty"`
 	DupFixed      bool      `json:"dupfixed,omitempty"`
 	Initial       []Pair    `json:"initial"`
 	Steps         []C20Step `json:"steps"`
@@ -386,6 +389,37 @@ func checkC20Cycle(c C20Cycle, o *vcore.Obs) error {
 	}
 	if err := put(c.Initial); err != nil {
 		return err
+	}
+	if c.SecondDBI {
+		err := env.Update(func(txn *lmdb.Txn) error {
+			dbi, err := txn.OpenDBI("aaa", lmdb.Create|lmdb.DupSort)
+			if err != nil {
+				return err
+			}
+			for _, v := range []string{"z", "zz"} {
+				if err := txn.Put(dbi, []byte{0xff, 0xff, 0xff}, []byte(v), 0); err != nil {
+					return err
+				}
+			}
+			return nil
+		})
+		if err != nil {
+			return fmt.Errorf("harness: second DBI: %v", err)
+		}
+	}
+	checkSecond := func(step string) error {
+		if !c.SecondDBI {
+			return nil
+		}
+		dump, err := lm.DumpEnv(env.Env)
+		if err != nil {
+			return err
+		}
+		d := dump.DBI("aaa")
+		if d == nil || len(d.Entries) != 2 || string(d.Entries[0].Val) != "z" || string(d.Entries[1].Val) != "zz" {
+			return fmt.Errorf("%s: the second duplicate-keys DBI, which nobody changed, no longer holds its two pairs: %v", step, d)
+		}
+		return nil
 	}
 	refusable := func() bool {
 		var ps []Pair
@@ -705,6 +739,9 @@ func checkC20Cycle(c C20Cycle, o *vcore.Obs) error {
 				sends++
 			}
 		}
+		if err := checkSecond(step); err != nil {
+			return err
+		}
 		if err := compare(step); err != nil {
 			return err
 		}
@@ -721,6 +758,7 @@ func checkC20Cycle(c C20Cycle, o *vcore.Obs) error {
 	for i := 0; i < c.ExcludedEmpty; i++ {
 		o.Excluded("shadow-empty-value")
 	}
+	o.ClassIf(c.SecondDBI, "second-duplicate-keys-dbi")
 	o.ClassIf(c.DupFixed, "dupfixed")
 	return nil
 }
@@ -886,6 +924,7 @@ func genC20Cycle(t *rapid.T) C20Cycle {
 	bad := rapid.IntRange(0, 5).Draw(t, "allow_bad") == 0
 	// MDB_DUPFIXED variant: all values of the DBI have one size
 	c.DupFixed = !bad && rapid.IntRange(0, 3).Draw(t, "dupfixed") == 0
+	c.SecondDBI = rapid.IntRange(0, 2).Draw(t, "second_dbi") == 0
 	fixEmpty := func(ps []Pair) []Pair {
 		for i := range ps {
 			if ps[i].V.Len == 0 {
@@ -937,7 +976,7 @@ func genC20Cycle(t *rapid.T) C20Cycle {
 
 func TestC20Cycle(t *testing.T) {
 	vcore.Run(t, vcore.Config{Property: "C20",
-		Rule: "rapid histories on a real MDB_DUPSORT application DBI with dupsort_hack: application pair insertions/deletions, replacement of a pair by one with the same key whose value differs in its last byte or only beyond the part embedded in the shadow key (values longer than the room left in the key), SendOnce, LoadOnce of peer snapshots carrying the transform; application pairs equal the model after every step, uploads carry transform + dupsort flag, a native-mode receiver and a shadow receiver without the hack refuse the snapshot and stay unchanged, unmappable content is refused without changing the LMDB; non-trivial = >=1 upload with >=2 pairs sharing a key, or a refusal"},
+		Rule: "rapid histories on a real MDB_DUPSORT application DBI with dupsort_hack (a third of them next to a second, static duplicate-keys DBI that is mirrored first and whose shadow keys sort after everything else): application pair insertions/deletions, replacement of a pair by one with the same key whose value differs in its last byte or only beyond the part embedded in the shadow key (values longer than the room left in the key), SendOnce, LoadOnce of peer snapshots carrying the transform; application pairs equal the model after every step, uploads carry transform + dupsort flag, a native-mode receiver and a shadow receiver without the hack refuse the snapshot and stay unchanged, unmappable content is refused without changing the LMDB; non-trivial = >=1 upload with >=2 pairs sharing a key, or a refusal"},
 		genC20Cycle, checkC20Cycle)
 }
 
